@@ -289,8 +289,7 @@ def _fn_factory():
                 cm = _cfg["check_modes"][eng.pick(len(_cfg["check_modes"]), f"check_mode{step}")]
                 if cm is not None:
                     params["check_mode"] = cm
-            # push/pop re-root the iteration and do not evaluate skip_types / image_readonly: not combined (outside the claim)
-            plain = op in ("check", "get", "set", "unset") and not simple
+            plain = not simple
             other_type = TYPE_PATH[TYPES[(TYPES.index(kind) + 1) % 3]]
             skip = [None, TYPE_PATH[kind], other_type][eng.pick(3, f"skip{step}")] if step == 0 and plain else None
             if skip:
